@@ -18,7 +18,7 @@ def determinism(check_id, seed, n, tier='quick'):
     decreasing order under another PYTHONHASHSEED with garbage allocated first (different
     address layout). All digests and violation keys must agree."""
     mod = kernel.load_check(check_id)
-    nsalts = getattr(mod, 'SALTS', 1)
+    nsalts = mod.salts(tier) if hasattr(mod, 'salts') else getattr(mod, 'SALTS', 1)
     wd = kernel.workdir(check_id + '-selftest')
     jobs = []
     per = max(1, n // nsalts)
